@@ -34,6 +34,7 @@ structure Style where
 inductive BuildError where
   | commentCreate        -- `CommentCreateError`
   | missingInfo          -- `MissingReuseInfoError`
+  | unreadable           -- `OSError`, `UnicodeDecodeError`: the file cannot be read as UTF-8 text
   deriving DecidableEq, Repr
 
 /-- everything outside the command's own control flow -/
